@@ -278,6 +278,17 @@ func registerIntrinsics(e *Engine) {
 		}
 		return 1
 	}
+	in["strings.TrimPrefix"] = func(fr *frame, a []value) value {
+		return strings.TrimPrefix(mustStr(a[0], "TrimPrefix"), mustStr(a[1], "TrimPrefix"))
+	}
+	in["strings.HasSuffix"] = func(fr *frame, a []value) value {
+		p := mustStr(a[1], "HasSuffix suffix")
+		ts := strTerms(a[0])
+		if len(ts) < len(p) {
+			return false
+		}
+		return mkScalar(fr.i.ps, strEqTerm(ts[len(ts)-len(p):], strTerms(p)), types.Bool)
+	}
 	in["strings.Title"] = func(fr *frame, a []value) value { return strings.Title(mustStr(a[0], "Title")) }
 	in["strings.TrimSpace"] = func(fr *frame, a []value) value { return strings.TrimSpace(mustStr(a[0], "TrimSpace")) }
 	in["strings.Count"] = func(fr *frame, a []value) value {
